@@ -26,6 +26,7 @@ import PoetryVerif.Proofs.MarkerProjReduce
 import PoetryVerif.Proofs.PyConvReduce
 import PoetryVerif.Proofs.MarkerAlgSoundOps
 import PoetryVerif.Proofs.PyConvFullLists
+import PoetryVerif.Proofs.PyConvNamed
 
 set_option linter.unusedSimpArgs false
 set_option linter.unusedVariables false
@@ -232,5 +233,29 @@ theorem only_weakens_validate {E : Env} {ex : List String} (hX : E.extras = some
   have hev : ∀ x, M.Good (FullLeafLs E) x → M.Evaluable E x := fun x hx =>
     M.good_mono (fun l hl => fullLeafLs_evaluable hX hE hl) x hx
   exact ⟨hr.1, only_weakens_validate_partial E S names m r hg h (hev m hg) (hev r hr.1) hm⟩
+
+/-- **the text back-conversion of `_merge_python_version_single_markers` keeps two-digit components** (what an
+`rstrip(".0")` would break): `python_full_version >= "a.b.0"` / `< "a.b.0"` becomes `python_version >= "a.b"` /
+`< "a.b"` — exactly the last component `.0` is dropped — and a literal whose last component is not `0` is left
+alone. -/
+theorem pyRewrite_two_digit {sop : Spec.SOp} {ops : String} (h : (sop, ops) ∈ pvOps) (a b c : Nat) (cst : LeafC) :
+    ((ops = "<" ∨ ops = ">=") →
+      pyRewrite ⟨"python_full_version", ops, Version.relText [a, b, 0], false, cst⟩ =
+        leafText "python_version" ops (Version.relText [a, b]) false) ∧
+    (c ≠ 0 → pyRewrite ⟨"python_full_version", ops, Version.relText [a, b, c], false, cst⟩ =
+        leafText "python_full_version" ops (Version.relText [a, b, c]) false) :=
+  ⟨fun hlg => pyRewrite_dropZero h hlg a b cst, fun hc => pyRewrite_keep h a b c hc cst⟩
+
+example (cst : LeafC) :
+    pyRewrite ⟨"python_full_version", ">=", "3.10.0", false, cst⟩ = "python_version >= \"3.10\"" ∧
+    pyRewrite ⟨"python_full_version", ">=", "3.8.10", false, cst⟩ = "python_full_version >= \"3.8.10\"" ∧
+    pyRewrite ⟨"python_full_version", "<", "3.10.0", false, cst⟩ = "python_version < \"3.10\"" := by
+  have h1 : Version.relText [3, 10, 0] = "3.10.0" := by decide
+  have h2 : Version.relText [3, 8, 10] = "3.8.10" := by decide
+  have g1 := pyRewrite_dropZero (sop := .ge) (ops := ">=") (by decide) (Or.inr rfl) 3 10 cst
+  have g2 := pyRewrite_keep (sop := .ge) (ops := ">=") (by decide) 3 8 10 (by decide) cst
+  have g3 := pyRewrite_dropZero (sop := .lt) (ops := "<") (by decide) (Or.inl rfl) 3 10 cst
+  rw [h1] at g1 g3; rw [h2] at g2
+  exact ⟨g1.trans (by decide), g2.trans (by decide), g3.trans (by decide)⟩
 
 end Poetry.C17
